@@ -96,5 +96,5 @@ pub fn run(ctx: &Ctx) {
     ctx.rule("contents 0..70000 bytes (dense small), segment size None/1..65535 incl. > length and non-dividing, ecn 0..3, a sequence of n>=1 values applied until empty; reference = contents cut every segment_size bytes; non-trivial = >=3 datagrams taken in more than one step");
     ctx.assume("n == 0 is outside the property's domain (n >= 1)");
     let k = ctx.tier.pick(1, 10);
-    ctx.explore("take_segments", ExploreOpts::new(50_000 * k), strategy, run_case);
+    ctx.explore("take_segments", ExploreOpts::new(200_000 * k), strategy, run_case);
 }
